@@ -232,24 +232,79 @@ def d5(cx: Cx, ob: Ob) -> None:
     fn, s, lp = r
     old, new = lp.a[1]
     conv = ("param", fn.params[0].name)
-    n_skip = 0
-    seen_unknown = seen_clash = False
-    for p in lp.body:
-        guards = [g for g in p.events if g.kind == "guard"]
-        stores = [ev for ev in p.events if ev.kind == "store"]
-        unknown = any(op(g.a) == "cmp" and g.a[1] in ("is", "==") and is_const(g.a[3], None) and g.b is True and any(x == old for x in subterms(g.a)) for g in guards) or any(
-            op(g.a) == "cmp" and g.a[1] == "in" and g.a[2] == old and g.b is False and op(g.a[3]) == "attr" and g.a[3][2] in ("synonym_to_prefix", "prefix_map") for g in guards
-        ) or any(op(g.a) == "cmp" and g.a[1] == "in" and g.a[2] == old and g.b is False and callee_name(g.a[3]) == "get_prefixes" for g in guards)
-        clash = any(g.b is True and _consults_owner_of(g.a, new, conv) for g in guards)
-        if unknown:
-            seen_unknown = True
-        if clash:
-            seen_clash = True
-        if unknown or clash:
-            n_skip += 1
-            ob.site(f"{where(fn, guards[-1].line)} {fn.qualname}", "skip path (" + ("unknown old" if unknown else "clash") + ")")
-            for ev in stores:
-                ob.violate(fn.qualname, where(fn, ev.line), f"a record is modified on the {'unknown-old' if unknown else 'clash'} path, which must leave everything untouched", detail="store-on-skip")
+    from ..rules import truth_table
+
+    def lookup_of_new(x) -> bool:
+        return (op(x) == "call" and x[2][:1] == (new,) and callee_name(x) in ("get_record", "get", "standardize_prefix")) or (op(x) == "item" and x[2] == new)
+
+    recs = {popped_record(p)[0] for p in lp.body} - {None}
+
+    def classify(a):
+        """(role, sense): role U (old unknown), N (new has an owner), S (that owner is the record itself); sense = polarity of the atom that means yes."""
+        if op(a) == "cmp" and a[1] in ("is", "==") and (is_const(a[3], None) or is_const(a[2], None)):
+            x = a[2] if is_const(a[3], None) else a[3]
+            if lookup_of_new(x):
+                return ("N", False)
+            if any(y == old for y in subterms(x)):
+                return ("U", True)
+        if op(a) == "cmp" and a[1] == "in" and a[2] == old and ((op(a[3]) == "attr" and a[3][2] in ("synonym_to_prefix", "prefix_map")) or callee_name(a[3]) == "get_prefixes"):
+            return ("U", False)
+        if op(a) == "cmp" and a[1] in ("==", "is") and ((a[2] in recs and lookup_of_new(a[3])) or (a[3] in recs and lookup_of_new(a[2]))):
+            return ("S", True)
+        if op(a) == "cmp" and a[1] in ("==", "in") and a[2] == new and any(y in recs for y in subterms(a[3])):
+            return ("S", True)  # `new` is one of the record's own names
+        if op(a) == "cmp" and a[1] == "==" and a[3] == new and any(y in recs for y in subterms(a[2])):
+            return ("S", True)
+        if op(a) == "cmp" and a[1] == "in" and a[2] == new:
+            return ("N", True)
+        if lookup_of_new(a):
+            return ("N", True)
+        if any(lookup_of_new(y) for y in subterms(a)):
+            return ("?", True)
+        return (None, True)
+
+    atoms, rows = truth_table(lp.body)
+    if rows is None:
+        ob.undecide("remap_curie_prefixes: too many distinct tests in the main loop")
+        return
+    roles = {a: classify(a) for a in atoms}
+    if any(r == "?" for r, _ in roles.values()):
+        ob.undecide("remap_curie_prefixes tests the owner of the new prefix in an unrecognised way: " + "; ".join(show(a)[:60] for a, (r, _) in roles.items() if r == "?"))
+    seen_unknown = any(r == "U" for r, _ in roles.values())
+    seen_clash = any(r == "N" for r, _ in roles.values())
+    has_self = any(r == "S" for r, _ in roles.values())
+    reported = set()
+    for asg, hit in rows:
+        def verdict(role):
+            vs = {asg[a] == sense for a, (r, sense) in roles.items() if r == role}
+            return None if len(vs) != 1 else next(iter(vs))
+
+        if any(len({asg[a] == sense for a, (r, sense) in roles.items() if r == role}) > 1 for role in "UNS"):
+            continue  # two tests of the same fact disagree: not a reachable state
+        unknown, owned, own = verdict("U"), verdict("N"), verdict("S")
+        for p in hit:
+            stores = [ev for ev in p.events if ev.kind == "store"]
+            glines = [g.line for g in p.events if g.kind == "guard"]
+            line = glines[-1] if glines else fn.node.lineno
+            if unknown:
+                kind = "unknown-old"
+            elif owned and own is False:
+                kind = "clash"
+            elif owned and own is None and not has_self:
+                kind = "clash"
+            else:
+                kind = None
+            if kind is not None:
+                if (id(p), kind) not in reported:
+                    reported.add((id(p), kind))
+                    ob.site(f"{where(fn, line)} {fn.qualname}", f"skip path ({kind})")
+                    for ev in stores:
+                        ob.violate(fn.qualname, where(fn, ev.line), f"a record is modified on the {kind} path, which must leave everything untouched", detail="store-on-skip")
+            elif owned and own is True and not stores and unknown is not True and (id(p), "own") not in reported:
+                reported.add((id(p), "own"))
+                ob.violate(fn.qualname, where(fn, line), "the clash test does not exempt the record's own names: remapping onto an existing synonym of the same record is skipped", detail="clash-own-synonym")
+    if seen_clash and not has_self:
+        ob.violate(fn.qualname, fn.where, "the clash test does not exempt the record's own names: remapping onto an existing synonym of the same record is skipped", detail="clash-own-synonym")
     # a clash test must consult the converter, not the working dictionary records are popped from
     popped = set()
     for p in lp.body:
@@ -274,14 +329,6 @@ def d5(cx: Cx, ob: Ob) -> None:
         ob.violate(fn.qualname, fn.where, "remap_curie_prefixes has no skip for pairs whose old prefix is unknown to the converter", detail="no-unknown-skip")
     if not seen_clash:
         ob.violate(fn.qualname, fn.where, "remap_curie_prefixes has no skip for pairs whose new prefix belongs to another record: two records would claim the same prefix", detail="no-clash-skip")
-    else:
-        # the clash test must exempt the record's own names (remapping onto an existing synonym)
-        for p in lp.body:
-            rec, _ = popped_record(p)
-            for g in p.events:
-                if g.kind == "guard" and g.b is True and _consults_owner_of(g.a, new, conv):
-                    if rec is not None and not any(x == rec for x in subterms(g.a)):
-                        ob.violate(fn.qualname, where(fn, g.line), "the clash test does not exempt the record's own names: remapping onto an existing synonym of the same record is skipped", detail="clash-own-synonym")
 
 
 @obligation("C11-D6", "application order: _order_curie_remapping raises its four documented errors and returns either the plain items (keys and values disjoint) or the layer-by-layer peeling of the remapping graph - each round emits exactly the pairs whose new prefix has no outgoing pair left, removes them, and the accumulated list is returned as built (a re-sort puts a->b before b->c and the second pair is skipped as a clash)", floor=3)
